@@ -1,7 +1,376 @@
-//! Engine A (C08): one writer + k readers under the turnstile.
+//! Engine A (C08): one writer actor executing a generated history and k reader
+//! actors that open, verify, hold and re-verify snapshots, all real threads
+//! released one at a time by the seeded turnstile. Yield points: operation
+//! boundaries, every cancel poll and progress step inside `build`, every
+//! id-generator atomic, every storage syscall inside `commit`, every reader action.
+
 use std::path::Path;
-use crate::exec::Outcome;
-use crate::plan::Plan;
-pub const RULE: &str = "tbd";
-pub fn gen(seed: u64, thorough: bool) -> Plan { crate::plan::gen_history(seed, "C08", thorough) }
-pub fn run(plan: &Plan, workdir: &Path) -> Outcome { crate::exec::run_history(plan, workdir) }
+use std::sync::atomic::{AtomicBool, Ordering};
+use std::sync::{mpsc, Arc, Mutex};
+
+use heed::{Env, WithoutTls};
+
+use crate::ctx::Observer;
+use crate::decode::{dump_hash, Dump};
+use crate::exec::{Exec, Outcome, RawDb, Stop, Violation};
+use crate::model::World;
+use crate::plan::{Plan, Step};
+use crate::turnstile::{reader_key, Turnstile, WRITER};
+use crate::util::{Fnv, Rng};
+
+pub const RULE: &str = "one writer thread running a seeded history (adds, deletes, builds, commits, aborts) and 1-3 reader threads (open snapshot; verify = full dump equality with a recorded committed version + C01 walk + exhaustive queries on the reader's thread; hold across 1-3 further scheduling rounds; re-verify), interleaved by the seeded turnstile (random / PCT / starve-one) at op boundaries, every cancel poll / progress step / id-generator atomic inside build and every write/sync syscall inside commit; evaluations = simulated runs; non-trivial+distinct = distinct schedule hashes of runs in which >= 1 reader opened or re-verified a snapshot while the writer was parked inside a build or inside a commit";
+
+pub fn gen(seed: u64, thorough: bool) -> Plan {
+    let mut r = Rng::new(seed ^ 0xA11CE);
+    for attempt in 0..50u64 {
+        let mut p = crate::plan::gen_history(crate::util::mix(seed, attempt), "C08", thorough);
+        p.engine = "A".into();
+        p.seed = seed;
+        let commits = p.steps.iter().filter(|s| matches!(s, Step::Commit)).count();
+        let adds = p.steps.iter().filter(|s| matches!(s, Step::Add { .. })).count();
+        if commits < 1 || commits > 6 || adds > if thorough { 300 } else { 100 } {
+            continue;
+        }
+        // restarts close the environment under the readers' feet: not part of this scenario
+        p.steps.retain(|s| !matches!(s, Step::Restart | Step::Upgrade { .. }));
+        p.cfg.pool = *r.pick(&[1usize, 2, 4]);
+        p.cfg.map_size = 64 << 20;
+        p.cfg.yield_every = *r.pick(&[1u64, 2, 8]);
+        p.params.insert("readers".into(), 1 + r.below(3));
+        p.params.insert("rounds".into(), 2 + r.below(4));
+        p.params.insert("reader_seed".into(), r.next());
+        return p;
+    }
+    let mut p = crate::plan::gen_history(seed, "C08", thorough);
+    p.engine = "A".into();
+    p
+}
+
+struct Shared {
+    versions: Vec<(Dump, World)>,
+    commits_started: usize,
+    commits_returned: usize,
+    last_open_version: usize,
+    finding: Option<(String, String)>,
+    trace: Fnv,
+    opens: u64,
+    verifies: u64,
+    reverifies: u64,
+    queries: u64,
+    opened_in_build: u64,
+    opened_in_commit: u64,
+    saw_inflight_version: u64,
+    writer_phase: &'static str,
+}
+
+struct PhaseObserver {
+    sh: Arc<Mutex<Shared>>,
+}
+
+impl Observer for PhaseObserver {
+    fn event(&self, kind: &str, _tick: u64) {
+        let mut g = self.sh.lock().unwrap();
+        match kind {
+            "commit:begin" => g.writer_phase = "commit",
+            "committed" => {
+                g.commits_returned += 1;
+                g.writer_phase = "idle";
+            }
+            "commit:failed" => {
+                g.writer_phase = "idle";
+                g.versions.pop();
+                g.commits_started -= 1;
+            }
+            "poll" | "progress" => {
+                if g.writer_phase != "commit" {
+                    g.writer_phase = "build";
+                }
+            }
+            "op" => g.writer_phase = "idle",
+            _ => {}
+        }
+    }
+}
+
+#[allow(clippy::too_many_arguments)]
+fn reader_actor(
+    k: u32,
+    ts: Arc<Turnstile>,
+    env: Env<WithoutTls>,
+    db: RawDb,
+    sh: Arc<Mutex<Shared>>,
+    stop: Arc<AtomicBool>,
+    plan: Plan,
+    rounds: u64,
+    seed: u64,
+) {
+    ts.actor_start(reader_key(k));
+    let mut r = Rng::new(seed ^ (k as u64) << 32);
+    'rounds: for round in 0..rounds {
+        // let the others move a few times before opening
+        for _ in 0..r.below(4) {
+            ts.yield_point("reader");
+            if stop.load(Ordering::SeqCst) {
+                break 'rounds;
+            }
+        }
+        let (a, phase) = {
+            let g = sh.lock().unwrap();
+            (g.commits_returned, g.writer_phase)
+        };
+        let rtxn = match env.read_txn() {
+            Ok(t) => t,
+            Err(e) => {
+                sh.lock().unwrap().finding = Some(("read_txn_failed".into(), format!("reader {k}: read_txn failed: {e}")));
+                stop.store(true, Ordering::SeqCst);
+                break;
+            }
+        };
+        let b = sh.lock().unwrap().commits_started;
+        let d = crate::snapshot::dump_txn(&rtxn, db);
+        // which committed version is it?
+        let (v, world) = {
+            let g = sh.lock().unwrap();
+            let mut found = None;
+            for v in a..=b.min(g.versions.len() - 1) {
+                if g.versions[v].0 == d {
+                    found = Some((v, g.versions[v].1.clone()));
+                    break;
+                }
+            }
+            match found {
+                Some(x) => x,
+                None => {
+                    drop(g);
+                    let mut g = sh.lock().unwrap();
+                    let known: Vec<String> = g.versions.iter().map(|(d, _)| format!("{:x}", dump_hash(d))).collect();
+                    g.finding = Some((
+                        "snapshot_not_a_committed_version".into(),
+                        format!(
+                            "reader {k} round {round}: opened while the writer was in phase `{phase}` with {a} commits returned and {b} started; its snapshot ({} keys, hash {:x}) equals neither version {a} nor {b} (versions: {known:?})",
+                            d.len(),
+                            dump_hash(&d)
+                        ),
+                    ));
+                    stop.store(true, Ordering::SeqCst);
+                    break 'rounds;
+                }
+            }
+        };
+        {
+            let mut g = sh.lock().unwrap();
+            g.opens += 1;
+            g.trace.write_u64(((k as u64) << 48) | ((round) << 32) | v as u64);
+            if phase == "build" {
+                g.opened_in_build += 1;
+            }
+            if phase == "commit" {
+                g.opened_in_commit += 1;
+                if v > a {
+                    g.saw_inflight_version += 1;
+                }
+            }
+            if v < g.last_open_version {
+                g.finding = Some((
+                    "snapshot_went_backwards".into(),
+                    format!("reader {k} round {round}: opened version {v} after another reader had already opened version {}", g.last_open_version),
+                ));
+                stop.store(true, Ordering::SeqCst);
+                break 'rounds;
+            }
+            g.last_open_version = v;
+        }
+        // verify on this thread: complete and searchable
+        let (q, res) = crate::snapshot::verify_content(&rtxn, db, &world, &d, &plan.cfg, (k as u64) << 8 | round);
+        {
+            let mut g = sh.lock().unwrap();
+            g.verifies += 1;
+            g.queries += q;
+            if let Err(e) = res {
+                g.finding = Some(("snapshot_incomplete".into(), format!("reader {k} round {round}: version {v} opened in phase `{phase}`: {e}")));
+                stop.store(true, Ordering::SeqCst);
+                break 'rounds;
+            }
+        }
+        // hold the snapshot while the writer moves on, then look again
+        let holds = 1 + r.below(3);
+        for h in 0..holds {
+            for _ in 0..(1 + r.below(6)) {
+                ts.yield_point("hold");
+                if stop.load(Ordering::SeqCst) {
+                    break 'rounds;
+                }
+            }
+            let d2 = crate::snapshot::dump_txn(&rtxn, db);
+            let phase2 = sh.lock().unwrap().writer_phase;
+            if d2 != d {
+                let mut g = sh.lock().unwrap();
+                g.finding = Some((
+                    "snapshot_changed_while_held".into(),
+                    format!("reader {k} round {round} hold {h}: the snapshot of version {v} changed while the read transaction was held (writer phase `{phase2}`, {} commits returned)", g.commits_returned),
+                ));
+                stop.store(true, Ordering::SeqCst);
+                break 'rounds;
+            }
+            let (q, res) = crate::snapshot::verify_content(&rtxn, db, &world, &d2, &plan.cfg, (k as u64) << 8 | round | (h + 1) << 16);
+            let mut g = sh.lock().unwrap();
+            g.reverifies += 1;
+            g.queries += q;
+            if phase2 == "build" {
+                g.opened_in_build += 1;
+            }
+            if phase2 == "commit" {
+                g.opened_in_commit += 1;
+            }
+            if let Err(e) = res {
+                g.finding = Some(("snapshot_incomplete_while_held".into(), format!("reader {k} round {round} hold {h}: version {v}: {e}")));
+                stop.store(true, Ordering::SeqCst);
+                break 'rounds;
+            }
+        }
+        drop(rtxn);
+    }
+    ts.actor_finish();
+}
+
+pub fn run(plan: &Plan, workdir: &Path) -> Outcome {
+    let n_readers = plan.params.get("readers").copied().unwrap_or(1).clamp(1, 3) as u32;
+    let rounds = plan.params.get("rounds").copied().unwrap_or(3);
+    let rseed = plan.params.get("reader_seed").copied().unwrap_or(7);
+    let ts = Turnstile::new(plan.cfg.sched_seed, &plan.cfg.sched, plan.cfg.pool.max(1));
+    ts.register(WRITER);
+    for k in 0..n_readers {
+        ts.register(reader_key(k));
+    }
+    let sh = Arc::new(Mutex::new(Shared {
+        versions: Vec::new(),
+        commits_started: 0,
+        commits_returned: 0,
+        last_open_version: 0,
+        finding: None,
+        trace: Fnv::new(),
+        opens: 0,
+        verifies: 0,
+        reverifies: 0,
+        queries: 0,
+        opened_in_build: 0,
+        opened_in_commit: 0,
+        saw_inflight_version: 0,
+        writer_phase: "idle",
+    }));
+    let stop = Arc::new(AtomicBool::new(false));
+    let (tx, rx) = mpsc::channel::<(Env<WithoutTls>, RawDb)>();
+    let (done_tx, done_rx) = mpsc::channel::<()>();
+    let outcome: Arc<Mutex<Option<Outcome>>> = Arc::new(Mutex::new(None));
+
+    std::thread::scope(|scope| {
+        // ---- writer actor
+        {
+            let ts = ts.clone();
+            let sh = sh.clone();
+            let stop = stop.clone();
+            let outcome = outcome.clone();
+            let workdir = workdir.to_path_buf();
+            scope.spawn(move || {
+                let mut ex = Exec::new(plan, &workdir, Some(ts.clone()));
+                crate::ctx::set_active(Some(ex.ctx.clone()));
+                let d0 = ex.dump_current();
+                sh.lock().unwrap().versions.push((d0, ex.world.clone()));
+                *ex.ctx.observer.write().unwrap() = Some(Arc::new(PhaseObserver { sh: sh.clone() }));
+                let sh2 = sh.clone();
+                ex.on_commit = Some(Box::new(move |d: &Dump, w: &World, _failed: bool| {
+                    let mut g = sh2.lock().unwrap();
+                    g.versions.push((d.clone(), w.clone()));
+                    g.commits_started += 1;
+                }));
+                tx.send((ex.env().clone(), ex.db())).unwrap();
+                ts.actor_start(WRITER);
+                let steps = plan.steps.clone();
+                let mut res: Result<(), Stop> = Ok(());
+                for (i, st) in steps.iter().enumerate() {
+                    if stop.load(Ordering::SeqCst) {
+                        break;
+                    }
+                    ex.step_no = i;
+                    ex.out.stats.steps += 1;
+                    res = ex.step(st);
+                    if res.is_err() {
+                        break;
+                    }
+                }
+                if res.is_ok() && ex.has_txn() {
+                    ex.step_no = steps.len();
+                    res = ex.do_abort();
+                }
+                if res.is_err() {
+                    stop.store(true, Ordering::SeqCst);
+                }
+                if let Err(Stop::Unevaluable(s)) = res {
+                    ex.out.unevaluable = Some(s);
+                }
+                // the transaction (if any) must be gone before the baton is passed on for good
+                drop(ex.take_txn());
+                *ex.ctx.observer.write().unwrap() = None;
+                ex.on_commit = None;
+                ts.actor_finish();
+                // the environment is closed only after every reader has dropped its handle
+                for _ in 0..n_readers {
+                    let _ = done_rx.recv();
+                }
+                *outcome.lock().unwrap() = Some(ex.finish());
+            });
+        }
+        let (env, db) = rx.recv().unwrap();
+        for k in 0..n_readers {
+            let ts = ts.clone();
+            let env = env.clone();
+            let sh = sh.clone();
+            let stop = stop.clone();
+            let plan = plan.clone();
+            let done_tx = done_tx.clone();
+            scope.spawn(move || {
+                reader_actor(k, ts, env, db, sh, stop, plan, rounds, rseed);
+                let _ = done_tx.send(());
+            });
+        }
+        drop(env);
+        ts.kickoff();
+    });
+    let mut out = outcome.lock().unwrap().take().unwrap_or_default();
+    out.seed = plan.seed;
+    let g = sh.lock().unwrap();
+    if let Some((kind, detail)) = &g.finding {
+        if out.violation.is_none() {
+            out.violation = Some(Violation { properties: vec!["C08".into()], kind: kind.clone(), step: 0, detail: detail.clone() });
+        }
+    }
+    let s = ts.stats();
+    out.stats.decisions = s.decisions;
+    out.stats.sections = s.sections as u64;
+    out.stats.max_in_flight = s.max_in_flight as u64;
+    out.stats.queries += g.queries;
+    out.stats.cases = 0;
+    for (k, v) in [
+        ("reader_opens", g.opens),
+        ("reader_verifications", g.verifies),
+        ("reader_reverifications_while_held", g.reverifies),
+        ("reader_looked_while_writer_in_build", g.opened_in_build),
+        ("reader_looked_while_writer_in_commit", g.opened_in_commit),
+        ("reader_saw_inflight_version_before_commit_returned", g.saw_inflight_version),
+    ] {
+        if v > 0 {
+            *out.stats.probes.entry(k.to_string()).or_insert(0) += v;
+        }
+    }
+    let mut h = Fnv::new();
+    h.write_u64(s.trace);
+    h.write_u64(g.trace.finish());
+    h.write_u64(out.stats.steps);
+    out.trace_hash = h.finish();
+    if g.opened_in_build + g.opened_in_commit > 0 {
+        out.stats.nontrivial.push(out.trace_hash);
+    }
+    crate::ctx::set_active(None);
+    let _ = std::fs::remove_dir_all(workdir);
+    out
+}
